@@ -319,8 +319,11 @@ func VerifC08_DeploymentInProgress() {
 	// style: 0 canary (default branch), 1 partition style, 2 blue-green
 	style := verifrt.IntRange("style", 0, 2)
 	partitionStyle := style == 1
+	// the advanced controller may already be held back (an earlier release change of this release paused it)
+	alreadyHeld := false
 	if partitionStyle {
-		st := appsv1alpha1.DeploymentStrategy{RollingStyle: appsv1alpha1.PartitionRollingStyle, Partition: intstr.FromInt(verifrt.IntRange("partition", 0, 100))}
+		alreadyHeld = verifrt.Bool("strategy.alreadyPaused")
+		st := appsv1alpha1.DeploymentStrategy{RollingStyle: appsv1alpha1.PartitionRollingStyle, Paused: alreadyHeld, Partition: intstr.FromInt(verifrt.IntRange("partition", 0, 100))}
 		oldObj.Annotations[appsv1alpha1.DeploymentStrategyAnnotation] = util.DumpJSON(&st)
 		oldObj.Spec.Strategy.Type = apps.RecreateDeploymentStrategyType
 	}
@@ -370,7 +373,7 @@ func VerifC08_DeploymentInProgress() {
 		if releaseChange {
 			verifrt.Assert(got.Paused, "C08.deployment.inprogress.partitionStyleReleaseChangeHeldBack")
 		} else {
-			verifrt.Assert(!got.Paused, "C08.deployment.inprogress.partitionStyleNotPausedWithoutReleaseChange")
+			verifrt.Assert(got.Paused == alreadyHeld, "C08.deployment.inprogress.partitionStyleHoldUnchangedWithoutReleaseChange")
 		}
 		verifrt.Assert(got.Partition == util.GetDeploymentStrategy(oldObj).Partition, "C08.deployment.inprogress.partitionKept")
 	case 2:
